@@ -43,7 +43,9 @@ type frFault struct {
 
 // faults that make sense per request kind
 var frFaultsFor = map[string][]string{
-	"manifest": {"s500", "s503", "s404", "s401", "connerr", "trunc", "reset", "badjson", "stall"},
+	// size0/sizes0/sizeplus/sizeminus: a well-formed manifest whose size members do not describe the layers
+	// (one layer 0, all 0 - the same as leaving the member out -, one layer larger, one layer smaller)
+	"manifest": {"s500", "s503", "s404", "s401", "connerr", "trunc", "reset", "badjson", "stall", "size0", "sizes0", "sizeplus", "sizeminus"},
 	"head":     {"s500", "s404", "s401", "connerr", "lenplus", "lenminus", "nolen"},
 	"blob":     {"s500", "s502", "s404", "s401", "connerr", "samehost", "noredirect", "chain"},
 	"cdn":      {"s500", "s503", "s404", "s416", "connerr", "trunc", "reset", "flip", "stall", "stallforever", "norange"},
@@ -102,6 +104,9 @@ type frRegistry struct {
 	needTok   bool // every registry request must carry the bearer token
 	foldNames bool // repository names are looked up case-insensitively (as the real registry does)
 	chunk     int  // bytes delivered per body Read (default 4096)
+
+	lastManifest map[string]Manifest // per "ns/repo:tag": the manifest most recently served with status 200
+	sizeLied     map[string]bool     // digests whose size a served manifest misstated
 
 	// hook is called (without the lock) at every request and before every body chunk; it may block (crash harness)
 	hook func(ev string)
@@ -288,7 +293,20 @@ func (r *frRegistry) RoundTrip(req *http.Request) (*http.Response, error) {
 		if m == nil {
 			return r.text(req, 404, `{"errors":[{"code":"MANIFEST_UNKNOWN"}]}`), nil
 		}
-		js, _ := json.Marshal(m.manifest())
+		mf := m.manifest()
+		if ls := frSizeFault(&mf, fault, f); len(ls) > 0 {
+			if r.sizeLied == nil {
+				r.sizeLied = map[string]bool{}
+			}
+			for _, d := range ls {
+				r.sizeLied[d] = true
+			}
+		}
+		if r.lastManifest == nil {
+			r.lastManifest = map[string]Manifest{}
+		}
+		r.lastManifest[arg] = mf
+		js, _ := json.Marshal(mf)
 		if fault == "badjson" {
 			js = js[:len(js)/2]
 		}
@@ -415,8 +433,47 @@ func frHome() {
 	})
 }
 
+// frSizeFault rewrites size members of a manifest about to be served and returns the digests it lied about.
+func frSizeFault(mf *Manifest, fault string, f *frFault) (lied []string) {
+	if f == nil {
+		return nil
+	}
+	all := make([]*Layer, 0, len(mf.Layers)+1)
+	for i := range mf.Layers {
+		all = append(all, &mf.Layers[i])
+	}
+	if mf.Config.Digest != "" {
+		all = append(all, &mf.Config)
+	}
+	if len(all) == 0 {
+		return nil
+	}
+	set := func(l *Layer, n int64) {
+		if l.Size != n {
+			l.Size = n
+			lied = append(lied, l.Digest)
+		}
+	}
+	one := all[f.Arg%len(all)]
+	switch fault {
+	case "size0":
+		set(one, 0)
+	case "sizes0":
+		for _, l := range all {
+			set(l, 0)
+		}
+	case "sizeplus":
+		set(one, one.Size+1+int64(f.Arg%5000))
+	case "sizeminus":
+		set(one, max(0, one.Size-1-int64(f.Arg%5000)))
+	}
+	return lied
+}
+
 // frCheckStore verifies that every layer of the manifest the name resolves to is present with the right size and hash.
-func frCheckStore(name string, want *Manifest) error {
+// sizeLied: digests whose size a served manifest misstated - for those only the hash decides (no file can have both
+// the manifest's size and the manifest's digest).
+func frCheckStore(name string, want *Manifest, sizeLied ...map[string]bool) error {
 	mp := ParseModelPath(name)
 	got, _, err := GetManifest(mp)
 	if err != nil {
@@ -445,7 +502,7 @@ func frCheckStore(name string, want *Manifest) error {
 		if err != nil {
 			return fmt.Errorf("layer %s of %s is missing from the store: %v", l.Digest[:19], name, err)
 		}
-		if int64(len(b)) != l.Size {
+		if int64(len(b)) != l.Size && !(len(sizeLied) > 0 && sizeLied[0][l.Digest]) {
 			return fmt.Errorf("layer %s of %s has %d bytes in the store, manifest says %d", l.Digest[:19], name, len(b), l.Size)
 		}
 		if d := frDigest(b); d != l.Digest {
